@@ -193,6 +193,15 @@ def overflow_stream():
     for v in ["-1", "-2", "-100", "0-1", "(0-1)", "Zm1", "Zmn", "-2147483648"]:
         for form in ["[(%s) c] d", "[=%s c] d", "[%s c] d", "[ (%s) c : e] d", "[2 [(%s) c] e] d"]:
             out.append(pre + form.replace("%s", v))
+    # an extreme time pointer / step followed by everything that does arithmetic on it
+    for a in ["Zmx", "Zmn", "(0-Zmx)", "Zq"]:
+        for cmd in ["TIME(%s) c", "TIME(%s) r c", "TIME(%s) 'ce'", "TIME(%s) Sub{c}", "TIME(%s) c&d", "TIME(%s) c&c d", "TIME(%s) y1.onTime(0,127,96) c",
+                    "TIME(%s) TempoChange(120,60,96)", "TIME(%s) Div{cde}", "TIME(%s) {cde}4", "TIME(0-%s-1) c PlayFrom(%s)", "TIME(%s) c ? d", "c ? TIME(%s) d",
+                    "o.Random=%s c", "Print(Random(0-%s,%s))", "qAdd(%s) q++ c", "vAdd(%s) v++ c", "TempoChange(%s,0-%s-1,96)", "System.MeasureShift=%s TIME(1:1:0)",
+                    "TIME(1:%s:0)", "TIME(%s:1:0)", "TIME(1:1:%s) c", "MasterBalance(%s)", "TIME(%s) PB.onTime(0,100,96) c", "TIME(%s) v.onTime(0,127,96) c d",
+                    "TIME(%s) [3 c]", "TIME(%s) Slur(0) c&e", "TIME(%s) Slur(1) c&e", "TIME(%s) Slur(3) c&e g", "TIME(%s) n60", "TIME(%s) M.onNote(1,2) c d",
+                    "TIME(%s) TrackSync TR(2) c", "TIME(%s) PLAY({c},{d})", "TIME(%s) Cresc(!1,1,100) c", "c t%s c", "c,,,%s d", "TIME(%s) l%%%s c", "r%%%s r%%%s c"]:
+            out.append(pre + cmd.replace("%s", a).replace("%%", "%"))
     odd = ["-$", "-0x", "-$z", "-0xz", "+-$", "-", "--1", "-0o", "-0o9", "$", "0x", "-$-1", "-$FFFFFFFFFFFFFFFFFFFF"]
     for o in odd:
         for ctxt in ["c,,,%s", "c4,,,%s", "n60,,,,%s", "c,%s", "c,,%s", "v%s c", "l%s c", "o%s c", "q%s c", "t%s c", "y1,%s c", "TR(%s) c",
